@@ -205,7 +205,7 @@ static void root19(void) { M19.first_seen = 0; }
 
 /* ------------------------------------------------------------------ c09 */
 static const pev RESET0 = { .opcode = 8, .tos = 0, .realsrc = ST_M1, .ethsrc = ST_M1, .realdst = ST_BC, .ethdst = ST_BC, .own_pos = -1 };
-static vf_snap *fresh_snap[3];   /* a freshly started responder, per state of the platform environment */
+static vf_snap *fresh_snap[6];   /* a freshly started responder, per state of the platform environment */
 static uint64_t seeds_tried;
 
 static void on_new_state(int depth) {
@@ -213,7 +213,7 @@ static void on_new_state(int depth) {
     vf_path p; e1_current_path(&p);
     vf_trace_clear();
     drv_linux(&RESET0, 0);
-    vf_snap *snaps[E3_MAXW] = { vf_snapshot(NULL, 0), fresh_snap[W.env.icon_epoch % 3], NULL };
+    vf_snap *snaps[E3_MAXW] = { vf_snapshot(NULL, 0), fresh_snap[W.env.icon_epoch % 3 + 3 * (W.env.mtu_alt & 1)], NULL };
     seeds_tried++;
     e3_add_seed(snaps, p.ev, p.n);
     free(snaps[0]);
@@ -242,9 +242,9 @@ static void seed_from_prefix(const int *prefix, int n, vf_snap **snaps) {
     for (int i = 0; i < n; i++) { vf_trace_clear(); if (prefix[i] >= FLOOD_BASE) { flood09(prefix[i] - FLOOD_BASE); continue; } drv_linux(&EV[prefix[i]], prefix[i] == SIB_EV ? 1 : 0); }
     vf_trace_clear(); drv_linux(&RESET0, 0);
     snaps[0] = vf_snapshot(NULL, 0);
-    uint32_t epoch = W.env.icon_epoch;
+    uint32_t epoch = W.env.icon_epoch, alt = W.env.mtu_alt;
     vf_world_reset();
-    W.env.icon_epoch = epoch;          /* the fresh responder starts on the same platform */
+    W.env.icon_epoch = epoch; W.env.mtu_alt = alt;          /* the fresh responder starts on the same platform */
     snaps[1] = vf_snapshot(NULL, 0);
 }
 static e3_cfg c3 = { .nworlds = 2, .ev_name = cv_name, .pre_name = pre_name09, .touches = touches, .apply = apply3,
@@ -263,6 +263,7 @@ int main(int argc, char **argv) {
     int small = (mode == 9 && A.a == 1);
     NEV = sigma_build(EV, 1024, mode == 3 ? SIGMA_DISC : small ? SIGMA_SMALL : SIGMA_P);
     NCV = sigma_build(CV, 1024, small ? SIGMA_SMALL : SIGMA_P);
+    if (mode == 9 && A.b != 1) { EV[NEV++] = ev_raw(0xEF, 0xF0, ST_ZERO, ST_ZERO); CV[NCV++] = ev_raw(0xEF, 0xF0, ST_ZERO, ST_ZERO); }      /* the interface's MTU may be changed at run time */
     if (mode == 9 && A.b == 1) {      /* a responder with two interfaces: a frame that changes nothing (a neighbour's Hello) may arrive on the other one at any point */
         SIB_EV = NEV; EV[NEV++] = ev_hello(0, ST_PEER, 0x3412); SIB_CV = NCV; CV[NCV++] = ev_hello(0, ST_PEER, 0x3412);
     }
@@ -312,7 +313,7 @@ int main(int argc, char **argv) {
     } else if (mode == 3 || mode == 19) {
         e1_run(&cfg, &st);
     } else {
-        for (int ep = 0; ep < 3; ep++) { vf_world_reset(); W.env.icon_epoch = (uint32_t)ep; fresh_snap[ep] = vf_snapshot(NULL, 0); }
+        for (int ep = 0; ep < 6; ep++) { vf_world_reset(); W.env.icon_epoch = (uint32_t)(ep % 3); W.env.mtu_alt = (uint32_t)(ep / 3); fresh_snap[ep] = vf_snapshot(NULL, 0); }
         e3_begin(&c3);
         cfg.on_new_state = on_new_state; cfg.model_size = 0; cfg.model = NULL;
         e1_run(&cfg, &st);
